@@ -16,6 +16,8 @@ ENTRY = dict(
                "The resumable machine is hand-written: TieChunks.runScan_is_read1 / runHeader_is_readexactly / runBody_is_readexactly / resume_blocked_is_wait show that its three phases use exactly those buffer primitives "
                "and suspend exactly in their waits; the TRANSLATED FrameReader.read is run on the concatenation only (translated_read_chunked), its suspended form is tied to the machine by the harness's observation at every suspension, not by a theorem.",
     clauses={
+        "a reader / a connection in a process with HISTORY -- earlier read() calls abandoned (READER_TIMEOUT through the real @timeout, a caller's wait_for, cancellation; a connection ended by reader time-out / cancel_tasks / shutdown() while its producer was reading) at EVERY suspension point of read(), the Frame.create executor hop with its job still pending included (the awaiting task is cancelled and asyncio cancels the awaited run_in_executor future with it; harness/vloop.py's executor is checked against the real thread-pool executor in this respect on every run): well-formed frames that arrive afterwards (same handler module and the other two; same reader and new readers) are each delivered once and in order":
+            "theorem (C14.history_leaves_no_residue / next_call_after_history_is_read, Props/C14History.lean registered under C14: the rest of a session after ANY history is the session of a fresh reader on what arrived minus what was consumed, to which C04.stream applies) + correspondence (harness/history.py: reader histories in fresh python processes vs Model/ReaderSession.sessionX)",
         "every frame sequence classified once and in order": "theorem (C04.stream, C04.delivered_exactly)",
         "skipped/rejected frames never desync": "theorem (C04.one_frame consumes exactly the frame)",
         "protocol level: the deliverable frames reach the device each once and in order for every chunking / arrival timing, bursts of any length":
